@@ -254,5 +254,3 @@ func EVM(r *kit.Run, rng *rand.Rand, pal *Palette, name string, chainID uint64) 
 	r.Count("router_workload:"+name, 1)
 }
 
-// Extra: tendermint / ontology / neo routers (filled in once their synthetic-data packages are stable).
-func Extra(r *kit.Run, rng *rand.Rand, pal *Palette) {}
